@@ -26,17 +26,18 @@ def run(c):
               "(decimal, hex, legacy octal 0644, 0o, 0b, underscores; raw/concat/named/parenthesised/arith/float), nested calls of earlier "
               "helpers, rules between the definitions, arguments spelled as literals, parenthesised, or as named constants -- preferably ones "
               "spelled like a parameter of the called helper --, package-level variables, group-level constants that shadow package-level ones, "
-              "a package-level function named like an earlier group's helper; const cases: one spelled argument vs its plain literal; distinct "
+              "a package-level function named like an earlier group's helper, helpers called several times with other arguments; const cases: one spelled argument vs its plain literal; distinct "
               "by source text; non-trivial when (a) loads (equality is really compared) or the spelling is not a plain literal")
     c.trusted += [
         "go2coq macroshape (pinned statement lists, path table of convertFilterExprImpl, scan of the writes of conv.groupFuncs and of the reset position)",
-        "the constant annotations the harness attaches to the model terms (what go/types folds) and the generator's own inliner",
+        "the printer of the type-checked rules file as a model term (harness/cmd/c18/model.go: types.Info.Types values as annotations) and the generator's own inliner",
         "harness/cmd/c18, hook ruleguard.VerifConvertAST",
     ]
     c.notes += ["the conversion model is the control skeleton of convertFilterExprImpl (constant first, then structure, matcher paths by table, "
                 "helper lookup / argument check / expansion with the per-group table); loader-level errors are covered by the twin oracle only",
                 "[consistent] (a folded string/int constant is a literal, a parenthesised constant or a shape the converter rejects; m[...] is "
-                "indexed by a string literal) is an assumption about go/types, exercised by the correspondence"]
+                "indexed by a string literal) and [nc]/[env_ok] (a call folded to a constant is not a helper call) are assumptions about "
+                "go/types; their boolean versions (proved sound) are evaluated on the annotations go/types produced for every generated file"]
 
     c.build_theories()
     c.require_theories("Load/Macro.v", "Load/MacroEnv.v")
@@ -136,6 +137,9 @@ def run(c):
                     elif v == 1 and (conv_failed or (a.get("ir") and b.get("ir") and not x["ir_equal"])):
                         c.fail("corr", "the Coq model converts the helper expansion to the inlined IR but irconv does not", input=inp,
                                observed=a.get("conv_err") or a.get("ir"))
+                    elif v == 4:
+                        c.fail("corr", "a hypothesis of the theorem (consistent / nc / env_ok) does not hold for the annotations go/types produced for this file",
+                               input=inp, observed=v)
                     elif v >= 2:
                         c.fail("corr", "the Coq model itself yields different conversions for the expansion and the inlined expression", input=inp, observed=v)
             else:
@@ -160,7 +164,8 @@ def run(c):
         c.coverage["unhygienic_param_cases"] = c.coverage.get("unhygienic_param_cases", 0) + sum(1 for x in hs if x.get("unhygienic"))
         c.coverage["nested_cases"] = c.coverage.get("nested_cases", 0) + sum(1 for x in hs if x.get("nested"))
         for key, fld in (("several_groups_cases", None), ("same_helper_name_in_two_groups", "same_name"), ("argument_spelled_like_a_parameter", "param_named"),
-                         ("legacy_octal_in_helper_body", "octal"), ("package_func_named_like_helper", "pkg_func")):
+                         ("legacy_octal_in_helper_body", "octal"), ("package_func_named_like_helper", "pkg_func"),
+                         ("helper_called_more_than_once", "twice")):
             for tag, pred in (("", lambda x: True), ("_loaded", lambda x: status(x["a"]) == "ok")):
                 c.coverage[key + tag] = c.coverage.get(key + tag, 0) + sum(
                     1 for x in hs if pred(x) and (x.get("groups", 1) > 1 if fld is None else x.get(fld)))
